@@ -566,31 +566,42 @@ func literalToJSON(lit string) (any, bool) {
 func DeferVariants(op *Op, max int) []*Op {
 	n := len(op.sites())
 	var out []*Op
+	// build wraps the chosen sites; the site at position disabled (-1: none) gets
+	// @defer(if: false), which must behave exactly like no @defer at all - also
+	// when it is nested inside an enabled one
+	build := func(chosen []int, disabled int) {
+		c := op.Clone()
+		// wrap later sites first so that earlier indices stay valid
+		for k := len(chosen) - 1; k >= 0; k-- {
+			s := c.sites()[chosen[k]]
+			x := (*s.list)[s.idx]
+			if x.Kind != 0 || x.Parent == "" || x.Name == "__typename" {
+				return
+			}
+			dir := "@defer"
+			switch (chosen[k] + k) % 4 {
+			case 1:
+				dir = fmt.Sprintf("@defer(label: \"L%d\")", chosen[k])
+			case 2:
+				dir = "@defer(if: true)"
+			}
+			if k == disabled {
+				dir = "@defer(if: false)"
+			}
+			(*s.list)[s.idx] = &Node{Kind: 1, Parent: x.Parent, Dirs: dir, Sub: []*Node{x}}
+		}
+		c.Note = fmt.Sprintf("defer@%v", chosen)
+		if disabled >= 0 {
+			c.Note += fmt.Sprintf(" disabled@%d", chosen[disabled])
+		}
+		out = append(out, c)
+	}
 	var rec func(start int, chosen []int)
 	rec = func(start int, chosen []int) {
 		if len(chosen) > 0 {
-			c := op.Clone()
-			ok := true
-			// wrap later sites first so that earlier indices stay valid
-			for k := len(chosen) - 1; k >= 0; k-- {
-				s := c.sites()[chosen[k]]
-				x := (*s.list)[s.idx]
-				if x.Kind != 0 || x.Parent == "" || x.Name == "__typename" {
-					ok = false
-					break
-				}
-				dir := "@defer"
-				switch (chosen[k] + k) % 4 {
-				case 1:
-					dir = fmt.Sprintf("@defer(label: \"L%d\")", chosen[k])
-				case 2:
-					dir = "@defer(if: true)"
-				}
-				(*s.list)[s.idx] = &Node{Kind: 1, Parent: x.Parent, Dirs: dir, Sub: []*Node{x}}
-			}
-			if ok {
-				c.Note = fmt.Sprintf("defer@%v", chosen)
-				out = append(out, c)
+			build(chosen, -1)
+			for d := range chosen {
+				build(chosen, d)
 			}
 		}
 		if len(chosen) == max {
